@@ -646,7 +646,9 @@ def _run_scenario(sc, timeout):
                 pass
             finally:
                 FAIL0[0] = None
-            control.tls.run.ev("mark")
+            R_ = control.tls.run
+            R_.retired = {t_.id for t_ in R_.tickets}      # what the failed call left in flight stays in flight, untouched
+            R_.ev("mark")
             return plain_call()
     try:
         R, outcome = control.run_controlled(call, script, timeout=timeout)
@@ -656,7 +658,10 @@ def _run_scenario(sc, timeout):
         marks = [k_ for k_, e_ in enumerate(R.log) if e_[1] == "mark"]
         if marks:
             R.first_call_log = R.log[:marks[0]]
-            R.log = R.log[marks[0] + 1:]
+            # the observed call's events only: whatever a node of the earlier call still reports (it is released when the
+            # run is over) is not an event of this call
+            R.log = [e_ for e_ in R.log[marks[0] + 1:]
+                     if not (e_[1] in ("enter", "exit") and len(e_) > 3 and e_[3] in R.retired) and e_[1] != "TIMEOUT"]
     selected = whole_call_selection(sc) if graph_nodes is None else graph_nodes
     return dict(run=R, outcome=outcome, selected=selected, real_cp=real_cp, script_trace=script.trace)
 
